@@ -4,7 +4,8 @@ from checks import rootops_static
 
 ASSUME = ["TLC enumerates the bounded instance (two trees, all path spellings up to the stated length over the tree's names plus '..', '.', '', a missing name; all op kinds/flags)",
           "reference = the harness' own raw *at call applied to (openat2(RESOLVE_IN_ROOT) of the parent part, final name), per the property statement; the VFS model is cross-checked against it",
-          "modes/ownership of created inodes are compared only as inode kind here"]
+          "modes/ownership of created inodes are compared only as inode kind here",
+          "unprivileged family: the harness switches the effective uid only (effective gid 0 and root's groups stay); the reference call is made by the same caller"]
 
 
 def main(tier_):
@@ -12,6 +13,7 @@ def main(tier_):
     v = Verdict("C14")
     stats, samples = collections.Counter(), []
     rootops_static.judge_c14(data, v, stats, samples)
+    rootops_static.run_unpriv(data, v, stats, n=400 if tier_ == "quick" else 4000)
     rc = v.finish()
     gen, design = data["gen"], data["design"]
     nontrivial = len({(c["tree"], json.dumps(c["op"], sort_keys=True), "/".join(c["path"]), "/".join(c["path2"])) for c in data["cases"]
@@ -21,6 +23,6 @@ def main(tier_):
                rule="case = (tree, operation kind+flags, path spelling, second path); non-trivial = spelling contains '..', '.', '' or the op is a rename / has a dot final name",
                exhaustive=len(data["cases"]) == data["total"], generated=data["total"], executed=len(data["cases"]),
                design_invariant_violated=design["violated"], oracle_vs_kernel_mismatch=stats["oracle_vs_kernel_mismatch"],
-               agree_kernel=stats["agree_kernel"], agree_emulated=stats["agree_emulated"], notes=v.notes[:10], build_s=round(data["build_s"], 1))
+               unprivileged_runs=stats["unpriv_runs"], unprivileged_agree=stats["unpriv_agree"], unprivileged_reference_outcomes=stats.get("unpriv_outcomes"), agree_kernel=stats["agree_kernel"], agree_emulated=stats["agree_emulated"], notes=v.notes[:10], build_s=round(data["build_s"], 1))
     write_evidence("C14", tier_, "model_checking", cov, ASSUME, time.time() - data["t0"], len(v.violations))
     return rc
